@@ -5,39 +5,57 @@
 (*   fs[p]    the lines of the file at path p (<<>> = no file)         at[p]   index of the molecule last written to p (0 = none)  *)
 (*   cache[p] what a reader that remembers files by path would hold (only consulted under the deviation "readerCaches")           *)
 (*   obs      the result of the last read (invalidated by the next write)                                                         *)
+(*   ffb      the block of the molecule's name that the force field handed to MetaMolecule.from_itp holds already: nothing, the     *)
+(*            block of the generating library (the molecule is named after its residue), or the molecule read there before        *)
 (* Deviations (HDev): "readerCaches" - included files are cached by path for the life of the process; "writerAppends" - the      *)
-(* output is appended to an existing file instead of replacing it.                                                                *)
+(* output is appended to an existing file instead of replacing it; "readerReusesBlock" - from_itp does not parse the file when    *)
+(* the force field already has a block of that name.  Read(file) depends on the file, not on what the force field held before.    *)
 EXTENDS ItpRoundTripExport
-CONSTANTS Paths, MaxOps, HDev
-VARIABLES fs, at, cache, obs, nops, hist
-hvars == <<fs, at, cache, obs, nops, hist>>
+CONSTANTS Paths, MaxOps, HDev,
+          WithFF      \* TRUE: histories also read through from_itp into one long-lived force field (ReadFF)
+VARIABLES fs, at, cache, obs, nops, hist, ffb
+hvars == <<fs, at, cache, obs, nops, hist, ffb>>
 
 L1 == <<(<<1>>), (<<"A">>)>>
 L2 == <<(<<1, 2>>), (<<"A", "A">>)>>
 L4 == <<(<<1, 2, 2, 3>>), (<<"A", "B", "A">>)>>
 L3 == <<(<<1, 2, 3>>), (<<"A", "B", "A">>)>>
-\* molecules of different size, residue ids, attributes and guards; all are written as moleculetype "mol"
-HistMols == << Mk(L1, [re |-> {}, ln |-> {}], 2, <<X("position_restraints", <<1>>, 1, GF)>>, TRUE),
+\* molecules of different size, residue ids, attributes and guards; all are written as moleculetype "A" - the name of their first
+\* residue, i.e. of a block of the force field they are generated from (gen_params -name A -seq A:n ...)
+Named(m) == [m EXCEPT !.name = "A"]
+HistMolsRaw == << Mk(L1, [re |-> {}, ln |-> {}], 2, <<X("position_restraints", <<1>>, 1, GF)>>, TRUE),
                Mk(L2, [re |-> {E12}, ln |-> {E12}], 2, <<X("bonds", <<2, 1>>, 1, GF)>>, TRUE),
                Mk(L4, [re |-> {E12, E23}, ln |-> {E12, E23}], 1, <<X("angles", <<3, 2, 1>>, 1, NoGuard), X("angles", <<2, 3, 4>>, 2, GN)>>, TRUE),
                Mk(L3, [re |-> {E12, E13, E23}, ln |-> {E12, E13, E23}], 3, <<X("exclusions", <<3, 1, 2>>, 1, NoGuard)>>, TRUE) >>
+HistMols == [i \in DOMAIN HistMolsRaw |-> Named(HistMolsRaw[i])]
 NMols == Len(HistMols)
+NoBlock == [has |-> FALSE, res |-> Finalize(R0)]
+\* some block named like the molecule that is not the content of the file (stands for the generating library's residue block)
+LibBlock == [has |-> TRUE, res |-> [Finalize(R0) EXCEPT !.name = "A", !.nrexcl = "1"]]
 NoObs == [valid |-> FALSE, path |-> "", res |-> Finalize(R0)]
 Frozen == /\ mol = 0 /\ pc = "hist" /\ out = <<>> /\ secs = {} /\ cur = "" /\ groups = <<>> /\ pend = <<>> /\ gopen = NoGuard
           /\ late = FALSE /\ rd = R0 /\ ri = 1
 HInit == /\ Frozen /\ fs = [p \in Paths |-> <<>>] /\ at = [p \in Paths |-> 0] /\ cache = [p \in Paths |-> <<>>] /\ obs = NoObs
-         /\ nops = 0 /\ hist = <<>>
+         /\ ffb \in (IF WithFF THEN {NoBlock, LibBlock} ELSE {NoBlock})
+         /\ nops = 0 /\ hist = <<[op |-> "init", path |-> IF ffb.has THEN "lib" ELSE "fresh", m |-> 0]>>
 Gen(p, i) == /\ nops < MaxOps
              /\ fs' = [fs EXCEPT ![p] = IF HDev = "writerAppends" THEN @ \o Write(HistMols[i]) ELSE Write(HistMols[i])]
-             /\ at' = [at EXCEPT ![p] = i] /\ obs' = NoObs /\ UNCHANGED cache
+             /\ at' = [at EXCEPT ![p] = i] /\ obs' = NoObs /\ UNCHANGED <<cache, ffb>>
              /\ nops' = nops + 1 /\ hist' = Append(hist, [op |-> "gen", path |-> p, m |-> i])
 ReadTop(p) == /\ nops < MaxOps /\ at[p] # 0
               /\ LET content == IF HDev = "readerCaches" /\ cache[p] # <<>> THEN cache[p] ELSE fs[p] IN
                    /\ obs' = [valid |-> TRUE, path |-> p, res |-> Read(content)]
                    /\ cache' = [cache EXCEPT ![p] = content]
-              /\ UNCHANGED <<fs, at>>
+              /\ UNCHANGED <<fs, at, ffb>>
               /\ nops' = nops + 1 /\ hist' = Append(hist, [op |-> "read", path |-> p, m |-> at[p]])
-HNext == /\ (\E p \in Paths : (\E i \in 1..NMols : Gen(p, i)) \/ ReadTop(p))
+\* MetaMolecule.from_itp(force_field, file of p, name) with the one force field of the process: the block of that name is replaced
+ReadFF(p) == /\ WithFF /\ nops < MaxOps /\ at[p] # 0
+             /\ LET res == IF HDev = "readerReusesBlock" /\ ffb.has THEN ffb.res ELSE Read(fs[p]) IN
+                  /\ obs' = [valid |-> TRUE, path |-> p, res |-> res]
+                  /\ ffb' = [has |-> TRUE, res |-> res]
+             /\ UNCHANGED <<fs, at, cache>>
+             /\ nops' = nops + 1 /\ hist' = Append(hist, [op |-> "readff", path |-> p, m |-> at[p]])
+HNext == /\ (\E p \in Paths : (\E i \in 1..NMols : Gen(p, i)) \/ ReadTop(p) \/ ReadFF(p))
          /\ UNCHANGED vars
 \* every read returns the molecule the path holds now, and nothing but the current content decides it
 ReadIsCurrent == obs.valid => /\ obs.res.ok /\ Same(obs.res, Project(HistMols[at[obs.path]]))
@@ -47,7 +65,7 @@ FsHoldsWrite == \A p \in Paths : IF at[p] = 0 THEN fs[p] = <<>> ELSE fs[p] = Wri
 OnlyWritesChangeFiles == [][\A p \in Paths : fs'[p] # fs[p] => (hist'[Len(hist')].op = "gen" /\ hist'[Len(hist')].path = p)]_hvars
 \* export: the molecules once, every behaviour of MaxOps operations that ends with a read
 ASSUME PrintT(<<"HMOLS", ToJson([i \in 1..NMols |-> CaseOf(HistMols[i])])>>)
-HistExport == (nops = MaxOps /\ hist[Len(hist)].op = "read") => PrintT(<<"HIST", ToJson(hist)>>)
+HistExport == (nops = MaxOps /\ hist[Len(hist)].op \in {"read", "readff"}) => PrintT(<<"HIST", ToJson(hist)>>)
 MCPaths == {"X", "Y"}
 MCInit == HInit
 =============================================================================
